@@ -100,7 +100,7 @@ __CPROVER_requires(ctx_idx > 0 && IS_NULL_NAME(name))
 #else
 __CPROVER_requires(!(ctx_idx > 0 && IS_NULL_NAME(name)))
 #endif
-__CPROVER_assigns(context, ctx_idx, ctx_cnt, __CPROVER_object_whole(context))
+__CPROVER_assigns(context, ctx_idx, ctx_cnt, __CPROVER_object_whole(context), vg_lkp)
 __CPROVER_frees(context, context[0].name)
 __CPROVER_ensures(CTXTAB_POST)
 __CPROVER_ensures(__CPROVER_return_value <= ctx_idx &&
